@@ -257,10 +257,9 @@ def launch_state(f):
         return s
 
     def edge(cond, pol, s, fn, b):
-        c, neg = RU.cond_call(fn, cond)
-        if c is not None and c.get("callee") == "aws_thread_launch" and s == "maybe":
-            failed = (pol is True) != neg  # non-zero return = failure
-            return "failed" if failed else "running"
+        t = RU.call_test(fn, cond, pol)
+        if t is not None and t[0].get("callee") == "aws_thread_launch" and s == "maybe":
+            return "failed" if t[1] == "nonzero" else "running"  # non-zero return = failure
         return s
 
     return Typestate(f, "none", tr, edge)
